@@ -97,13 +97,16 @@ def main():
     jobs = int(os.environ.get('MUT_JOBS', '6'))
     limit = int(os.environ.get('MUT_LIMIT', '0'))
     for k in range(jobs): prepare_copy(k)
+    only = None
+    if os.environ.get('MUT_ONLY'):
+        only = set(tuple(x) for x in json.load(open(os.environ['MUT_ONLY'])))
     tasks = []
     for rel in files:
         orig = open(os.path.join(REPO, rel)).read()
         ms = list(mutants(orig))
         if limit: ms = ms[:limit]
         for line, desc, new in ms:
-            if new != orig: tasks.append((rel, line, desc, new, orig))
+            if new != orig and (only is None or (rel, line, desc, new.split('\n')[line-1].strip()) in only): tasks.append((rel, line, desc, new, orig))
     print(len(tasks), 'mutants', file=sys.stderr)
     # a copy is used by one worker at a time
     import queue, threading
